@@ -68,7 +68,7 @@ Section RowInv.
   Qed.
 
   Lemma cA_commit c t :
-    cwf c -> cA c -> tbase t -> tA c t -> validate c t = true -> t_rows t <> [] -> cA (apply_writes c t).
+    cwf c -> cA c -> tbase t -> tA c t -> validate g c t = true -> t_rows t <> [] -> cA (apply_writes c t).
   Proof.
     intros W C [B1 B2] T _ Hne. unfold apply_writes. destruct (t_rows t) as [|w wr] eqn:E; [congruence|].
     rewrite <- E in *. fold (add_writes (c_last c + 1) (t_rows t) (c_rows c)).
